@@ -589,6 +589,13 @@ fn run_stored(rt: &tokio::runtime::Runtime, c: &[u64]) -> Vec<u64> {
     if c.first() == Some(&2) {
         return run_report_case(rt, c).1;
     }
+    if c.first() == Some(&3) {
+        // composed: real ProtocolSets -> real bounded channel -> real TransportService
+        return match crate::c08_compose::parse(c) {
+            Some((ka, n0, ops)) => crate::c08_compose::run(rt, ka, n0, crate::c08_compose::Src::Fixed(&ops)).1,
+            None => vec![0],
+        };
+    }
     let Some((ka, t, n0, ops)) = parse_case(c) else { return vec![0] };
     let mut last = vec![0];
     for _ in 0..6 {
@@ -660,6 +667,19 @@ pub fn main(args: &Args, c09: bool) {
             let mut r = rr.fork();
             let c = crate::c08_report::gen(&mut r, thorough);
             let (c, t) = catch_unwind(AssertUnwindSafe(|| run_report_case(&rt, &c))).unwrap_or((c.clone(), vec![PANIC_MARK]));
+            out.emit(&c, &t);
+        }
+    }
+    // composed: real ProtocolSets feed the real TransportService through its real bounded channel
+    if !c09 {
+        let mut rr = Rng::new(seed ^ 0xc0b0);
+        for _ in 0..(ncases / 5) {
+            let mut r = rr.fork();
+            let ka = r.chance(70);
+            let n0 = r.pick(&[0u64, 0, 7, 1000]);
+            let g = crate::c08_compose::Gen::new(r.fork(), thorough);
+            let (c, t) = catch_unwind(AssertUnwindSafe(|| crate::c08_compose::run(&rt, ka, n0, crate::c08_compose::Src::Gen(g))))
+                .unwrap_or((vec![0], vec![PANIC_MARK]));
             out.emit(&c, &t);
         }
     }
